@@ -978,6 +978,7 @@ class Molecule(nx.Graph):
         interactions list separately which is not a part of
         the graph and hence does not get deleted.
         """
+        nodes = list(nodes)
         super().remove_nodes_from(nodes)
         self.max_node = None
         for node in nodes:
